@@ -2,7 +2,7 @@
 """How sensitive is the tie? Each mutant below changes ONE definition of the hand-written Lean model the way a modelling mistake would
 (a wrong branch, an off-by-one, a forgotten case, a swapped order). If the correspondence campaign of the named property does not report
 a difference between model and code for it, the campaign does not exercise that part of the model: the theorems about it would then be
-tied to the code by nothing. (A mutant may also break a proof; that is noted, but what is measured here is the campaign.)
+tied to the code by nothing. (A mutant may also break a proof; what is measured here is the campaign: the proofs are stubbed out in the scratch copy.)
 
 usage: model_mutants.py [name-prefix ...]       works in a scratch copy of /verif (default /tmp/verif_mm, removed afterwards);
                                                 VERIF_REPO / PYTHONPATH as for ./check. Prints one line per mutant and a summary.
@@ -158,6 +158,11 @@ def main():
     if os.path.exists(SCRATCH):
         shutil.rmtree(SCRATCH)
     sh('rsync -a --exclude replays --exclude seeded --exclude harmless --exclude .git %s/ %s/' % (V, SCRATCH))
+    # what is measured is the campaign, not the proofs: in the scratch copy every Proofs/Cxx.lean is replaced by a stub, so that a
+    # mutated model file does not make the check recompile the whole proof tree (minutes for the low-level files) before its campaign
+    for prop in sorted({m[1] for m in muts}):
+        open(os.path.join(SCRATCH, 'lean', 'Proofs', prop + '.lean'), 'w').write(
+            'namespace Slimta.%s\ntheorem stub : True := trivial\nend Slimta.%s\n' % (prop, prop))
     results = []
     try:
         for name, prop, fname, old, new in muts:
@@ -185,9 +190,7 @@ def main():
                 verdict = 'model does not build (not a usable mutant): ' + out.strip().splitlines()[-1][:120]
             else:
                 mism = int(m.group(2)) if m else -1
-                proof = ('%s/%s' % (pm.group(1), pm.group(2))) if pm else 'build failed'
                 verdict = ('KILLED by the campaign (%d mismatches)' % mism) if mism > 0 else 'SURVIVED the campaign'
-                verdict += '; proofs ' + proof
                 if name in EXPECTED_SURVIVORS and 'SURVIVED' in verdict:
                     verdict = 'SURVIVED as expected (' + EXPECTED_SURVIVORS[name] + ')'
             results.append((name, prop, verdict))
